@@ -133,6 +133,8 @@ inline std::vector<G2> lattice4 (int r)
 // stage entry points
 void run_group ();
 void run_unit ();
+void run_rounding ();
+void run_repeated_keys ();
 void run_setrotation ();
 void run_slerp ();
 
